@@ -12,13 +12,21 @@ META = {
             "EVERY period s != 0 with three two-to-one functions each (lookup tables). The exact output distribution of the algorithm circuit on "
             "|0..0> (sparse exact simulation) must be: DJ p(0..0)=1 for constant, 0 for balanced; BV p(s)=1; Simon support = {y: y.s=0} uniform; "
             "decode_output of every outcome with non-zero probability reports it in the argument type. The same wrapper is also run on an ideal "
-            "xor-oracle to tell a wrong wrapper from a wrong compiled black box. Non-trivial = non-constant function / non-zero secret; distinct = "
+            "xor-oracle to tell a wrong wrapper from a wrong compiled black box. decode_counts is exercised on counts taken over ALL qubits (each logical outcome split over two raw strings of 40 shots) with discard_lower=60: aggregation must come first. Non-trivial = non-constant function / non-zero secret; distinct = "
             "distinct (algorithm, function) instances.",
-    "bound": {"quick": "DJ n=1..3 (all 2+2, 2+6, 2+70 functions); BV n=2..4 all secrets (+n=1 bool); Simon n=2,3 all periods",
+    "bound": {"quick": "DJ n=1..3 (all 2+2, 2+6, 2+70 functions); BV n=2..4 all secrets (+n=1 bool; n=4 also with a nested tuple argument Tuple[Tuple[bool, Qint[2]], bool]); Simon n=2,3 all periods",
               "thorough": "DJ n=4 all 12870 balanced functions; BV n=5; Simon n=4"},
-    "assumptions": ["svsim.sparse_run is the meaning of the circuit", "a function is skipped (counted) if its compiled expressions do not denote the intended table (C01's matter)"],
+    "assumptions": ["svsim.sparse_run is the meaning of the circuit", "a function whose compiled expressions do not denote the table written in its source is reported (the guarantee is about the source's function)"],
     "explanation": "states = algorithm circuits built by the real constructors on freshly compiled functions; transitions = basis outcomes compared.",
 }
+
+
+def NOT_DENOTED(src):
+    # the function the library derived from the source is not the intended constant / balanced / dot-product / two-to-one function:
+    # the guarantee is stated for the source's function (none occurs on the unmodified tree)
+    return {"status": "violation", "rows": 0, "nontrivial": True, "outcome": "form-does-not-denote-f",
+            "detail": {"bad": [{"why": "the compiled black box does not compute the function written in the source"}], "src": src},
+            "digest": H.h12("form-does-not-denote-f")}
 
 
 def balanced_tables(n):
@@ -137,7 +145,7 @@ def run_case(case):
                 src = "def tfun(x: %s) -> bool:\n    return %s\n" % (argtype(n, kind), dnf(tb, n, kind))
             qf = H.compile_src(src, "default", True)
             if not denotes(qf, [tb]):
-                return {"status": "skipped", "rows": 0, "nontrivial": False, "outcome": "form-does-not-denote-f"}
+                return NOT_DENOTED(src)
             a = DeutschJozsa(qf)
             table_rows = [((tb >> r) & 1,) for r in range(N)]
             sig = "def tfun(x: %s) -> bool:\n    return %s\n" % (argtype(n, kind), bit("x", 0, n, kind))
@@ -167,7 +175,7 @@ def run_case(case):
                 if bin(r & s).count("1") & 1:
                     col |= 1 << r
             if not denotes(qf, [col]):
-                return {"status": "skipped", "rows": 0, "nontrivial": False, "outcome": "form-does-not-denote-f"}
+                return NOT_DENOTED(src)
             a = BernsteinVazirani(qf)
             sig = "def tfun(x: %s) -> bool:\n    return %s\n" % (argtype(n, "int"), bit("x", 0, n, "int"))
             if kind == "nested":
@@ -191,7 +199,7 @@ def run_case(case):
             qf = H.compile_src(src, "default", True)
             cols = [sum(((tab[r] >> j) & 1) << r for r in range(N)) for j in range(w)]
             if not denotes(qf, cols):
-                return {"status": "skipped", "rows": 0, "nontrivial": False, "outcome": "form-does-not-denote-f"}
+                return NOT_DENOTED(src)
             a = Simon(qf)
             sig = "def tfun(x: Qint[%d]) -> Qint[%d]:\n    return x\n" % (n, w) if w == n else \
                   "def tfun(x: Qint[%d]) -> Qint[%d]:\n    return 0\n" % (n, w)
